@@ -426,7 +426,7 @@ def gen_history(rnd, nops, geo, strkind=None, ops_weights=None, obs_every=1, nul
             emit("swapdoc %d %d" % (d, e), "")
         elif op == "deser" and U:
             r = rnd.choice(U); n, d = refs[r]
-            fmt, data, snap = rnd.choice(DESER)
+            fmt, data, snap = rnd.choice([x for x in DESER if not (small_ints and b"18446744073709551615" in x[1])])
             if n is None:
                 emit("deser%s %d 10 %s" % (fmt, r, data.hex()), "NoMemory")
             else:
